@@ -9,13 +9,17 @@
 // at that index, judged against a reference priority written from the
 // definition (priority.go), and (d) the algebraic forgery for every input of
 // the VRF challenge that can be solved for, plus replayed and degenerate
-// proofs (forgery.go).
+// proofs (forgery.go), and (e) the real SortitionManager — the cache of the
+// node's own credentials — explored as a state machine over every order of
+// lookups and clears across a round switch, every answer judged against the
+// sortition of exactly the asked (round, round index, step) (stepview.go).
 package c04
 
 import (
 	"encoding/json"
 	"fmt"
 	"sort"
+	"strings"
 	"sync"
 	"time"
 
@@ -64,12 +68,14 @@ func Run(r *mc.Run) {
 	} else {
 		r.SetBudget(30 * 60e9)
 	}
-	r.Rule = "quantile: for every (stake, probability) pair of the grid, every quantile cell boundary F(j) of the exact binomial CDF (all j for stake <= 64, else all j with 1e-12 <= F(j) <= 1-1e-12) is turned into hashes floor((F(j) +- d)*2^256), d in {0, 1 ulp, 1e-9, 1e-6, and 4x the float tolerance where that exceeds 1e-10}, plus the hash extremes and the 0.99 branch switch; choose() must return a seat count admissible for the exact CDF, inside [0,stake], monotone in the hash; distinct = (stake, p, exact seat count, code branch).  upper tail (regime target > 0.99, every pair with p <= 1 and n*p*(1-p) <= 2.5e5): hashes 2^256-1-k for k in {0,1,2,3,2^8,2^32,2^64,2^128,2^192,2^200,2^202,2^203,2^210,2^220} and EVERY tail cell boundary: for every j with exact tail Pr(X>j) in [2^-250, 0.01] the hashes 2^256-1-floor(tail(j)*(1+-o)*2^256), o in {0, 1e-12, 1e-9, 1e-6} (relative offsets of the TAIL value, both sides) and the two hash neighbours of the boundary; there the seat count is judged in tail space against the exact 1024-bit tails with a RELATIVE tolerance: tail(j) <= inv*(1+delta) and tail(j-1) >= inv*(1-delta), inv = 1-hash/2^256 exact, delta = max(5e-10, 16*n*ln(n+1)*2^-53) (>= 4x the relative error of the float64 CDF of binomial(n,1-p) measured over all probed cells, recorded under upper_tail_float64_cdf_max_relative_error*).  binding: for every key x message x parameter triple an honest credential from VrfSortition, then every single-field perturbation (other key, each seed bit, index, step, each proof byte +-1, proof length, claimed seats, threshold/stake/total +-1, each priority byte +-1, every other seat count with its own priority) through VrfVerifySortition and VrfVerifyPriority; distinct = rejected perturbation cases.  message level: the same message-carried perturbations through Server.verifyPriority / Server.verifySortition (the functions production hands to the proposal and vote handlers) on a Server over a stub chain reader (one look-back header with the seed, one committed validator set of 8 chamber validators).  priority: for every seat index t of {0..1024, 256k (k<=16), 8192, 16384, 32768, 65280, 65535, 65536, 65537, 131072; thorough adds 8191, 8193, 65279, 65281, 65792, 131071, 131073, every 256k up to 131072 and 2^24-1, 2^24} the first VRF output of a fixed enumeration whose largest seat hash Keccak-256(output || minimal big-endian seat index) over 0..t is at t, then VrfComputePriority(output, j) for j = t (and j = t-1, t+1 when t > 1024 or the low byte of t is 0x00, 0x01 or 0xff) against the reference maximum; for every (committee/stake/total, t) of a table with stakes 255, 256, 257, 511, 512, 513, 600, 1024, 65535, 65536, 65537 (thorough: 131072) and t among 255, 256, 257, 511, 512, 513, 768, 1024, 65280, 65536 (thorough: also 32768, 65535, 65537, 131072; three keys per pair up to stake 1024) (committee = total stake, so every unit is a seat; also committee > total and two p < 1 triples) the first round index whose honest VRF output has its largest seat hash at t: the priority the honest prover emits must be that largest hash, VrfVerifyPriority must accept it and must reject the hash of every other seat index 0..j+2 (seat counts up to 600, thorough 1100; above: the boundary indexes 0..3, 254..258, 511..513, every 256k <= 4096, the second largest and its alias >>8, t-1, t+1, t>>8, t>>16, j-2..j+2; above 4096 seats: 0, 1, 255, 256, 65535, 65536, j-1, j, j+1, t>>8, t>>16, the second largest); the same through Server.verifyPriority on a validator set with stakes 255, 256, 257, 512, 513, 600, 768, 1024 and proposer committee = total stake; distinct = witness seat indexes and witness credentials.  forgery: for every key x message x input of the VRF challenge that can be solved for (VRF point, first commitment, second commitment, public key) x free point x scalar choice the proof that verifies if exactly that input were missing from the challenge (everything else fixed first, challenge derived, the unbound input solved from the verification equations), checked against the weakened reference verifier (must pass) and offered to ProofToHash (must reject, or return the honest output), to VrfVerifySortition / VrfVerifyPriority under every parameter triple with the seat counts the forged output would win, and to Server.verifyPriority / Server.verifySortition; control: the honest proof computed from the specified full transcript must be accepted with the honest output; honest proofs replayed for every other message; honest proofs with s or t replaced by 0, N-1, N, N+1, 2^256-1 (reject, never panic); distinct = rejected forgeries"
+	r.Rule = "quantile: for every (stake, probability) pair of the grid, every quantile cell boundary F(j) of the exact binomial CDF (all j for stake <= 64, else all j with 1e-12 <= F(j) <= 1-1e-12) is turned into hashes floor((F(j) +- d)*2^256), d in {0, 1 ulp, 1e-9, 1e-6, and 4x the float tolerance where that exceeds 1e-10}, plus the hash extremes and the 0.99 branch switch; choose() must return a seat count admissible for the exact CDF, inside [0,stake], monotone in the hash; distinct = (stake, p, exact seat count, code branch).  upper tail (regime target > 0.99, every pair with p <= 1 and n*p*(1-p) <= 2.5e5): hashes 2^256-1-k for k in {0,1,2,3,2^8,2^32,2^64,2^128,2^192,2^200,2^202,2^203,2^210,2^220} and EVERY tail cell boundary: for every j with exact tail Pr(X>j) in [2^-250, 0.01] the hashes 2^256-1-floor(tail(j)*(1+-o)*2^256), o in {0, 1e-12, 1e-9, 1e-6} (relative offsets of the TAIL value, both sides) and the two hash neighbours of the boundary; there the seat count is judged in tail space against the exact 1024-bit tails with a RELATIVE tolerance: tail(j) <= inv*(1+delta) and tail(j-1) >= inv*(1-delta), inv = 1-hash/2^256 exact, delta = max(5e-10, 16*n*ln(n+1)*2^-53) (>= 4x the relative error of the float64 CDF of binomial(n,1-p) measured over all probed cells, recorded under upper_tail_float64_cdf_max_relative_error*).  binding: for every key x message x parameter triple an honest credential from VrfSortition, then every single-field perturbation (other key, each seed bit, index, step, each proof byte +-1, proof length, claimed seats, threshold/stake/total +-1, each priority byte +-1, every other seat count with its own priority) through VrfVerifySortition and VrfVerifyPriority; distinct = rejected perturbation cases.  message level: the same message-carried perturbations through Server.verifyPriority / Server.verifySortition (the functions production hands to the proposal and vote handlers) on a Server over a stub chain reader (one look-back header with the seed, one committed validator set of 8 chamber validators).  priority: for every seat index t of {0..1024, 256k (k<=16), 8192, 16384, 32768, 65280, 65535, 65536, 65537, 131072; thorough adds 8191, 8193, 65279, 65281, 65792, 131071, 131073, every 256k up to 131072 and 2^24-1, 2^24} the first VRF output of a fixed enumeration whose largest seat hash Keccak-256(output || minimal big-endian seat index) over 0..t is at t, then VrfComputePriority(output, j) for j = t (and j = t-1, t+1 when t > 1024 or the low byte of t is 0x00, 0x01 or 0xff) against the reference maximum; for every (committee/stake/total, t) of a table with stakes 255, 256, 257, 511, 512, 513, 600, 1024, 65535, 65536, 65537 (thorough: 131072) and t among 255, 256, 257, 511, 512, 513, 768, 1024, 65280, 65536 (thorough: also 32768, 65535, 65537, 131072; three keys per pair up to stake 1024) (committee = total stake, so every unit is a seat; also committee > total and two p < 1 triples) the first round index whose honest VRF output has its largest seat hash at t: the priority the honest prover emits must be that largest hash, VrfVerifyPriority must accept it and must reject the hash of every other seat index 0..j+2 (seat counts up to 600, thorough 1100; above: the boundary indexes 0..3, 254..258, 511..513, every 256k <= 4096, the second largest and its alias >>8, t-1, t+1, t>>8, t>>16, j-2..j+2; above 4096 seats: 0, 1, 255, 256, 65535, 65536, j-1, j, j+1, t>>8, t>>16, the second largest); the same through Server.verifyPriority on a validator set with stakes 255, 256, 257, 512, 513, 600, 768, 1024 and proposer committee = total stake; distinct = witness seat indexes and witness credentials.  forgery: for every key x message x input of the VRF challenge that can be solved for (VRF point, first commitment, second commitment, public key) x free point x scalar choice the proof that verifies if exactly that input were missing from the challenge (everything else fixed first, challenge derived, the unbound input solved from the verification equations), checked against the weakened reference verifier (must pass) and offered to ProofToHash (must reject, or return the honest output), to VrfVerifySortition / VrfVerifyPriority under every parameter triple with the seat counts the forged output would win, and to Server.verifyPriority / Server.verifySortition; control: the honest proof computed from the specified full transcript must be accepted with the honest output; honest proofs replayed for every other message; honest proofs with s or t replaced by 0, N-1, N, N+1, 2^256-1 (reject, never panic); distinct = rejected forgeries.  stepview (the node's OWN credentials): the real SortitionManager, wired to the look-back functions of a Server exactly as StartMining wires it, over a chain reader with one header per number (its own seed; validator set n mod 3 of three sets, so the node's stake, the total and, for key 7, the membership differ per round), is explored as a state machine: ops = the lookups production makes, isProposer(round, index) (Server.Prepare) and isValidator(round, index, step, look-back kind) for prevote / precommit / nextindex / certificate (Voter.vote; certificate with the certificate look-back), and ClearStepView(round) (Server.clearData on a round switch), over rounds {R, R+1, R+2} (R+1 a certificate round) x round indexes {1, 2}, in EVERY order (a round asked before it is cleared for, an older round asked after the switch, the same key twice, the same clear twice, clears going back); BFS over the states (state = last cleared round + what GetStepView exposes under each of the 30 keys of the domain, content without the randomised proof) until the frontier is empty for the sub-alphabets 'switch' (R, R+1 x indexes 1, 2 x proposer, prevote), 'cert' (R, R+1 x index 1 x proposer, prevote, certificate) (thorough: also 'steps' = R, R+1 x index 1 x all five lookups, 'mid' = 3 rounds x index 1 x proposer, prevote, certificate), to depth 3 (thorough 4) for 'wide' (3 rounds x 2 indexes x proposer, prevote, certificate = 21 ops) and to depth 2 (thorough 3) for the full alphabet of 33 ops, plus EVERY op sequence of length 3 on switch / cert and 2 on the full alphabet (thorough 4 and 3) without state merging; nodes: key 0 (always seats; every alphabet), and on the saturated sub-alphabets also key 2 (stake 5, 2, 1: zero-seat answers) and key 7 (not registered in the look-back table of some rounds) (thorough: also key 1; the evidence lists every (alphabet, node) exploration under stepview_explorations).  Oracle per lookup, derived without the Server: which header carries the seed and which the stake table of exactly the asked round and look-back kind, the node's stake / total / committee size there, then the honest prover path VrfSortition on exactly these inputs (its seat count checked against the exact binomial quantile), the reference priority, and VRF(seed || round || index) for the proposer's block seed: the answer must have that role flag, seat count, priority, block seed, committee size, its proof must verify under VrfVerifyPriority / VrfVerifySortition with these inputs and be accepted by Server.verifyPriority / Server.verifySortition for a message of that round; state invariant after every op: whatever GetStepView exposes under a key is the sortition result of that key (a view never survives into another round, round index or step) and a cached proof is byte-identical to the one handed out"
 	r.Assume("float64 by design: a seat count is admissible when it is the exact quantile of some t' with |t'-t| <= max(1e-12, 4*n*ln(n)*2^-53) (conditioning of the log-gamma based float64 CDF; 1e-12 up to stake ~400)")
 	r.Assume("upper tail (target > 0.99): the VRF output as a fraction is read both ways, output/2^256 (statement) and output/(2^256-1) (code: the all-ones output is exactly 1 and selects the whole stake); a seat count is admissible when it is the exact quantile, within the relative tail tolerance, under either reading; the readings differ by less than one unit of the 256-bit grid and give different seat counts only for the last few hashes below 2^256-1 (counted)")
 	r.Assume("the exact-tail oracle is restricted to n*p*(1-p) <= 2.5e5: beyond that the float64 CDF has no relative accuracy (known finding), only the absolute oracle applies there")
 	r.Assume("the priority is defined over the sub-user indices 0..j (j+1 hashes), as the implementation and every node compute it")
 	r.Assume("forgery: the generator and the hashed message point are not carried by a proof (constant / recomputed by the verifier from seed, step, round index), so no proof can be solved for them; their binding is probed by replaying honest proofs across messages and by the single-field perturbations of the binding part")
+	r.Assume("stepview: the proof of a credential is randomised, so a view is identified by its content (seat count, priority, block seed, committee size, kind); every proof is verified when the lookup that returns it is the explored transition; views recreated while a shorter path is replayed are checked by content and by staying unchanged")
+	r.Assume("stepview: the manager is driven through its own methods in arbitrary order (that is what the three goroutines of the engine can produce); the order constraints of one goroutine (a voter asks prevote before precommit) are not imposed")
 	walls := map[string]float64{}
 	timed := func(name string, f func(*mc.Run)) {
 		t0 := time.Now()
@@ -81,12 +87,17 @@ func Run(r *mc.Run) {
 	timed("server", runServer)
 	timed("forgery", runForgery)
 	timed("priority", runPriority)
+	timed("stepview", runStepView)
 	r.SetExtra("part_wall_seconds", walls)
 	flush(r)
 }
 
 func Replay(r *mc.Run, v *mc.Violation) {
 	logging.Root().SetHandler(logging.DiscardHandler())
+	if strings.HasPrefix(v.System, "stepview") {
+		replayStepView(r, v)
+		return
+	}
 	in, ok := v.Input.(map[string]interface{})
 	if !ok {
 		fmt.Println("replay file has no input")
